@@ -50,6 +50,11 @@ def conflict(m1, m2):
     return m1 == 'write' or m2 == 'write'
 
 
+UNCONDITIONAL_PASS = ('::unwrap', '::expect', '::unwrap_unchecked', 'IntoIterator::into_iter', 'Into::into', 'From::from',
+                      '::into_inner', 'Try::branch', 'FromResidual::from_residual', 'hint::must_use', 'Option::<T>::Some',
+                      'Result::<T, E>::ok', 'Option::<T>::ok_or', 'convert::identity')
+
+
 class LockDomain(Domain):
     name = 'locks'
 
@@ -59,11 +64,13 @@ class LockDomain(Domain):
         self.edges = {}        # (hcls, hmode, cls, mode) -> list of sites
         self.selfacq = {}      # (cls, hmode, mode) -> sites
         self.acq_sites = {}    # (where, cls, mode) -> count
+        self.acq_by = {}       # lock class -> functions that acquire it
         self.events = []       # backend events with the held set
         self.create_held = {}  # (body path, bi) -> held classes at creation of a future
         self.leaks = []
         self.poll_held = {}    # (fn created, where created) -> {'created': set, 'polled': set, 'by': fn}
-        self.enter_held = {}   # callee short name -> list of held sets at entry
+        self.enter_held = {}
+        self.enter_by = {}        # (caller, callee) -> held sets at entry   # callee short name -> list of held sets at entry
 
     # ---------------------------------------------------------------- helpers
     def cls_name(self, tid):
@@ -102,6 +109,7 @@ class LockDomain(Domain):
             site = (fr.where(bi), short(fr.body.path), fr.chain_str())
             k = (site[0], cls, mode)
             self.acq_sites[k] = self.acq_sites.get(k, 0) + 1
+            self.acq_by.setdefault(cls, set()).add(short(fr.body.path))
             if cls == 'cluster':
                 # a host cluster is a data cluster, an L2-table cluster or a
                 # refblock cluster (C08): the per-cluster lock taken in a
@@ -143,15 +151,17 @@ class LockDomain(Domain):
         out = set()
         ch = False
         for g in held:
-            if g[3] == ('l', src):
-                out.add((g[0], g[1], g[2], dst, g[4], g[5]))
+            if g[3] == ('l', src) or g[3] == ('w', src):
+                # a weak guard stays weak wherever it is moved to
+                nd = dst if g[3][0] == 'l' or not isinstance(dst, tuple) else ('w', dst[1])
+                out.add((g[0], g[1], g[2], nd, g[4], g[5]))
                 ch = True
             else:
                 out.add(g)
         return frozenset(out) if ch else held
 
     def _release(self, held, src):
-        out = frozenset(g for g in held if g[3] != ('l', src))
+        out = frozenset(g for g in held if g[3] != ('l', src) and g[3] != ('w', src))
         return out
 
     def on_assign(self, ip, fr, tok, tags, bi, s):
@@ -194,8 +204,11 @@ class LockDomain(Domain):
                     held = self._release(held, src)
                 elif dst is not None and self.guard_classes_in_type(fr.body.locals[dst]) and \
                         not self._is_ref(fr.body.locals[dst]):
-                    # by-value pass-through (IntoIterator::into_iter, Some(..), unwrap ...)
-                    held = self._rehome(held, src, ('l', dst))
+                    # by-value pass-through (IntoIterator::into_iter, Some(..), unwrap ...); a callee that may
+                    # drop what it is given (bool::then_some, Option::filter, ...) leaves a *weak* guard: it still
+                    # counts for what may be held (lock order), not for what must be held (critical sections)
+                    uncond = any((fn or '').endswith(x) for x in UNCONDITIONAL_PASS)
+                    held = self._rehome(held, src, ('l', dst) if uncond else ('w', dst))
                 else:
                     # inserted into a container or consumed by an unknown
                     # callee: held until the frame returns
@@ -265,13 +278,15 @@ class LockDomain(Domain):
         cname = short(cfr.body.path)
         here = frozenset((c, m) for (c, m, d, _h, _f, _g) in held if d == depth and not c.startswith('@'))
         self.enter_held.setdefault(cname, set()).add(here)
+        self.enter_by.setdefault((short(fr.body.path), cname), set()).add(here)
         if term.get('fn', '').endswith('Future::poll') and cfr.body.is_coroutine:
             one = ip.creation_of_poll(fr, term, cfr.body.parent)
             if one is not None:
                 mark = '@pend:%s:%d' % (cname, one[0])
                 if any(g[0] == mark for g in held):
                     own = sorted({(c, m) for (c, m, d, h, _f, _g) in held
-                                  if d == depth and h != 'outer' and c.startswith('cluster') and m == 'write'})
+                                  if d == depth and h != 'outer' and not (isinstance(h, tuple) and h[0] == 'w')
+                                  and c.startswith('cluster') and m == 'write'})
                     k = (cname, fr.body.where(one[0]), short(fr.body.path))
                     e = self.poll_held.setdefault(k, {'ok': True, 'n': 0})
                     e['n'] += 1
@@ -302,7 +317,7 @@ class LockDomain(Domain):
                 keep.add(g)
             elif g[3] == 'parked':
                 continue
-            elif g[3] == ('l', 0):
+            elif g[3] == ('l', 0) or g[3] == ('w', 0):
                 keep.add(g)          # returned to the caller
             else:
                 # mir_built keeps scope-end drops explicit, so this means a
@@ -326,11 +341,11 @@ class LockDomain(Domain):
         if not cb.is_coroutine:
             for a in term['args']:
                 if a['k'] == 'move' and not a['pl']['p']:
-                    out = {g for g in out if g[3] != ('l', a['pl']['l'])}
+                    out = {g for g in out if g[3] != ('l', a['pl']['l']) and g[3] != ('w', a['pl']['l'])}
         dst = term['dst']['l']
         for g in eheld:
-            if g[3] == ('l', 0):
-                out.add((g[0], g[1], g[2], ('l', dst), g[4], g[5]))
+            if g[3] == ('l', 0) or g[3] == ('w', 0):
+                out.add((g[0], g[1], g[2], (g[3][0], dst), g[4], g[5]))
         return (depth, frozenset(out))
 
 
